@@ -115,6 +115,13 @@ Theorem C07_app_judgement_sound : forall sc, JudgeC07P.spawns_declared sc = true
 Proof. exact JudgeC07P.C07_judgement_sound. Qed.
 
 
+(* ---- app stage: the executable judgement of coq/Check is sound for the model on every scenario of the profile, and transfers
+   to every trace that agrees with the model's run ---- *)
+From BEI Require Proofs.JudgeC07tP.
+Theorem C07_app_judgement_transfer : forall sc t, JudgeC07P.spawns_declared sc = true /\ JudgeC07P.shared_specb sc = true /\ JudgeC07P.nonconsumingb sc = true /\ JudgeC07P.sites_distinctb sc = true -> App.agree_full (sc, t) = true -> C07c.ok (sc, t) = 0%Z.
+Proof. exact JudgeC07tP.C07_app_judgement_transfer. Qed.
+
+
 Print Assumptions C07_init.
 Print Assumptions C07_op_never_panics.
 Print Assumptions C07_ops_never_panic.
@@ -136,3 +143,4 @@ Print Assumptions C07_exclusive_arrival.
 Print Assumptions C07_shared_arrival.
 Print Assumptions C07_removal.
 Print Assumptions C07_app_judgement_sound.
+Print Assumptions C07_app_judgement_transfer.
